@@ -239,4 +239,4 @@ def run(case, rec):
 
 
 def parts(ctx):
-    return [Part('permissions', run, strategy=cases(), n=ctx.n(800, 6000), budget_s=ctx.n(150, 3000))]
+    return [Part('permissions', run, strategy=cases(), n=ctx.n(1200, 6000), budget_s=ctx.n(150, 3000))]
